@@ -25,7 +25,7 @@ LEVEL_TEXT = ("seeded search over histories and fault points (interrupt at a see
               "re-evaluated by an independent LimitModel + TerminationRef at the start of every iteration; bounded-liveness "
               "budget on seam crossings for 'Solve always returns'")
 LEVEL_NOTE = "trusts the scripted peers' call log and the TerminationRef transcription of the documented inequalities; sampling, not proof"
-KNOBS = dict(p_term=0.0, p_limits=0.75, p_midrun_set=0.5, midrun_sets=('limits', 'limits', 'termination', 'penalty'),
+KNOBS = dict(p_term=0.0, p_limits=0.75, p_midrun_set=0.5, midrun_sets=('limits', 'limits', 'termination', 'penalty', 'evalmon'),
              p_solve=0.7, p_bounds=0.2, p_constraint=0.1, p_penalty=0.15, p_vector=0.0, max_ops=8, p_handler=0.5,
              cost_models=['quad', 'quad', 'rosen', 'abs', 'quant', 'maxabs'])
 valid = solverplan.valid_solver_plan
